@@ -18,7 +18,7 @@ def run(tier, v):
     present = sum(o["present"] for o in outs)
     v.count(n)
     v.subspace("every message over {[,],r,e,f,:,blank,0,1,9,ARABIC-INDIC 3,x,+} of length <= %d as whole message, after `[ref: `, `[ref:`, `[ref`, "
-               "and before `[ref: 1] x`" % maxlen, n, exhaustive=True, messages_with_valid_token=present)
+               "before `[ref: 1] x`, and between `[ref: ` and a later valid token" % maxlen, n, exhaustive=True, messages_with_valid_token=present)
     v.coverage["distinct_nontrivial"] += present
     for o in outs:
         for f in o["fails"]:
@@ -51,7 +51,7 @@ def run(tier, v):
         if r[0] == "panic" or len(missing) != want_missing:
             v.violation("token-elsewhere-counts:%s" % where, {"file": code, "got": repr(r)}, replay_files={"case.rs": code})
     v.subspace("valid token in target / key-value string / trailing argument / mid-message / neighbouring statement", len(cases))
-    # CLI binding: every message of length <= 3 (5 framings) as a file through --check and edit
+    # CLI binding: every message of length <= 3 (7 framings) as a file through --check and edit
     import itertools
     import clibind
     S12 = ["[", "]", "r", "e", "f", ":", " ", "0", "1", "9", "\u0663", "x", "+"]
@@ -59,11 +59,11 @@ def run(tier, v):
     for L in range(0, 4):
         for t in itertools.product(S12, repeat=L):
             m = "".join(t)
-            for a, b in (("", ""), ("[ref: ", ""), ("[ref:", ""), ("[ref", ""), ("", "[ref: 1] x")):
+            for a, b in (("", ""), ("[ref: ", ""), ("[ref:", ""), ("[ref", ""), ("", "[ref: 1] x"), ("[ref: ", "[ref: 1] x"), ("[ref: ", "] [ref: 7] y")):
                 msgs.add(a + m + b)
     msgs = sorted(msgs)
     nb, nf = clibind.bind(msgs, lambda m: (gen.cfg_index(0, False), 'fn f() { info!("%s"); }\n' % m, None, m), v)
-    v.subspace("CLI binding: every message of length <= 3 over the alphabet (5 framings) as a file through --check and edit", nb)
+    v.subspace("CLI binding: every message of length <= 3 over the alphabet (7 framings) as a file through --check and edit", nb)
     # inserted token for every N
     if tier == "thorough":
         ranges = [(1, 0xFFFFFFFF)]
